@@ -65,7 +65,7 @@ def symInfoOfJson (j : Json) : R SymInfo := do
   let bits ← jNat a[1]!
   let b (i : Nat) : Bool := (bits >>> i) % 2 == 1
   pure { name := (← jStr a[0]!), isAssigned := b 0, isParameter := b 1, isGlobal := b 2,
-         isDeclaredGlobal := b 3, isNonlocal := b 4, isFree := b 5, isImported := b 6 }
+         isDeclaredGlobal := b 3, isNonlocal := b 4, isFree := b 5, isImported := b 6, isLocal := b 7 }
 
 partial def symScopeOfJson (j : Json) : R SymScope := do
   let a ← jArr j
